@@ -4,8 +4,10 @@ package analyzer
 // Import graph analysis
 //
 
-// As soon as the algorithm detects that the `originalStart` node is reachable from other modules, it returns an error
-func (self Analyzer) importGraphIsCyclicInner(originalStart string, start string, path []string) (outputPath []string, isCyclic bool) {
+// As soon as the algorithm detects that the `originalStart` node is reachable from other modules, it returns an error.
+// Every module is explored at most once (`visited`), so the search also terminates if the graph contains a cycle
+// which does not go through `originalStart`.
+func (self Analyzer) importGraphIsCyclicInner(originalStart string, start string, path []string, visited map[string]bool) (outputPath []string, isCyclic bool) {
 	// modules reachable from `start`
 	module, found := self.modules[start]
 	if !found {
@@ -13,13 +15,18 @@ func (self Analyzer) importGraphIsCyclicInner(originalStart string, start string
 		return path, false
 	}
 
+	if visited[start] {
+		return path, false
+	}
+	visited[start] = true
+
 	neighbors := module.ImportsModules
 
 	for _, node := range neighbors {
 		if node == originalStart {
 			return append(path, node), true
 		}
-		if path, cyclic := self.importGraphIsCyclicInner(originalStart, node, append(path, node)); cyclic {
+		if path, cyclic := self.importGraphIsCyclicInner(originalStart, node, append(path, node), visited); cyclic {
 			return path, cyclic
 		}
 	}
@@ -28,5 +35,5 @@ func (self Analyzer) importGraphIsCyclicInner(originalStart string, start string
 }
 
 func (self Analyzer) importGraphIsCyclic(start string) (outputPath []string, isCyclic bool) {
-	return self.importGraphIsCyclicInner(start, start, []string{start})
+	return self.importGraphIsCyclicInner(start, start, []string{start}, make(map[string]bool))
 }
